@@ -10,35 +10,40 @@ theorem mem_outbox_append {l : List OMsg} {x m : OMsg} (h : m ∈ l ++ [x]) : m 
   simpa using h
 
 /-- election safety at the vote layer: two nodes in the leader role with the same term are equal -/
-theorem leader_unique (c0 : Cfg) (hne : c0.incoming ≠ [] ∨ c0.outgoing ≠ []) (v : VSys) (hV : InvV c0 v)
+theorem leader_unique (v : VSys) (hV : InvV v)
     (i j : Nat) (hi : (v.nodes i).role = 2) (hj : (v.nodes j).role = 2)
     (ht : (v.nodes j).term = (v.nodes i).term) : j = i := by
   have l1 := (hV.ld j hj).1
   have l2 := (hV.ld i hi).1
   rw [ht] at l1
-  obtain ⟨_, q1, hq1, hg1⟩ := hV.el _ l1
-  obtain ⟨_, q2, hq2, hg2⟩ := hV.el _ l2
-  obtain ⟨x, hx1, hx2⟩ := Cfg.quorums_intersect c0 hne q1 q2 hq1 hq2
-  exact hV.gc x ⟨_, x, j⟩ ⟨_, x, i⟩ (Or.inr ⟨hg1 x hx1, rfl⟩) (Or.inr ⟨hg2 x hx2, rfl⟩) rfl
+  exact hV.eu _ l1 _ l2 rfl
+
+/-- nobody was elected before for the term a candidate wins: an earlier election of that term was
+decided under a configuration whose quorums meet the winner's (guard of `win`), the common voter
+voted once, so the earlier winner is this candidate — which has not been elected yet -/
+theorem win_fresh_elected (s : PSys) (hV : InvV (vsys s)) (hL : InvL s) (i : Nat) (cfg : Cfg) (q : List Nat)
+    (hrole : (s.nodes i).role = 1) (hq : cfg.isQuorum q = true)
+    (hall : ∀ x ∈ q, (⟨(s.nodes i).term, x, i⟩ : Grant) ∈ s.grants)
+    (hadj : ∀ p ∈ s.ecfgs, p.1 = (s.nodes i).term → adjOk cfg p.2 = true) :
+    ∀ j, ((s.nodes i).term, j) ∉ s.elected := by
+  intro j hj
+  obtain ⟨_, cj, qj, hcj, hqj, hgj⟩ := hV.el _ hj
+  obtain ⟨v, hv1, hv2⟩ := adj_intersect cfg cj (hadj _ hcj rfl) q qj hq hqj
+  have g1 := hall v hv1
+  have g2 := hgj v hv2
+  have : i = j := hV.gc v ⟨_, v, i⟩ ⟨_, v, j⟩ (Or.inr ⟨g1, rfl⟩) (Or.inr ⟨g2, rfl⟩) rfl
+  subst this
+  exact hL.cand i hrole hj
 
 /-- `win`: the ghost log of the new term is the winner's log -/
-theorem invL_win (c0 : Cfg) (hne : c0.incoming ≠ [] ∨ c0.outgoing ≠ []) (s : PSys) (hV : InvV c0 (vsys s))
-    (h : InvL s) (i : Nat) (q : List Nat) (hrole : (s.nodes i).role = 1)
-    (hq : c0.isQuorum q = true) (hall : ∀ x ∈ q, (⟨(s.nodes i).term, x, i⟩ : Grant) ∈ s.grants) :
+theorem invL_win (s : PSys) (hV : InvV (vsys s))
+    (h : InvL s) (i : Nat) (cfg : Cfg) (hrole : (s.nodes i).role = 1)
+    (hfresh : ∀ j, ((s.nodes i).term, j) ∉ s.elected) :
     InvL { s with nodes := upd s.nodes i { s.nodes i with role := 2 },
                   llog := updT s.llog (s.nodes i).term (s.nodes i).log,
                   elog := updT s.elog (s.nodes i).term (s.nodes i).log,
-                  elected := ((s.nodes i).term, i) :: s.elected } := by
-  -- nobody was elected for this term before
-  have hfresh : ∀ j, ((s.nodes i).term, j) ∉ s.elected := by
-    intro j hj
-    obtain ⟨_, qj, hqj, hgj⟩ := hV.el _ hj
-    obtain ⟨v, hv1, hv2⟩ := Cfg.quorums_intersect c0 hne q qj hq hqj
-    have g1 := hall v hv1
-    have g2 := hgj v hv2
-    have : i = j := hV.gc v ⟨_, v, i⟩ ⟨_, v, j⟩ (Or.inr ⟨g1, rfl⟩) (Or.inr ⟨g2, rfl⟩) rfl
-    subst this
-    exact h.cand i hrole hj
+                  elected := ((s.nodes i).term, i) :: s.elected,
+                  ecfgs := ((s.nodes i).term, cfg) :: s.ecfgs } := by
   have hempty : s.llog (s.nodes i).term = [] := h.nole _ hfresh
   have hext : ∀ t, ∃ r, updT s.llog (s.nodes i).term (s.nodes i).log t = s.llog t ++ r := by
     intro t
@@ -118,7 +123,7 @@ theorem invL_win (c0 : Cfg) (hne : c0.incoming ≠ [] ∨ c0.outgoing ≠ []) (s
     · simp only [upd, hji, if_false] at hr ⊢; exact h.pos j hr
 
 /-- `leaderAppend`: the leader's log and the ghost log of its term grow by the same entry -/
-theorem invL_lappend (c0 : Cfg) (hne : c0.incoming ≠ [] ∨ c0.outgoing ≠ []) (s : PSys) (hV : InvV c0 (vsys s)) (h : InvL s) (i : Nat) (e : LEntry)
+theorem invL_lappend (s : PSys) (hV : InvV (vsys s)) (h : InvL s) (i : Nat) (e : LEntry)
     (hrole : (s.nodes i).role = 2) (het : e.term = (s.nodes i).term) :
     InvL { s with nodes := upd s.nodes i { s.nodes i with log := (s.nodes i).log ++ [e] },
                   llog := updT s.llog (s.nodes i).term ((s.nodes i).log ++ [e]) } := by
@@ -196,7 +201,7 @@ theorem invL_lappend (c0 : Cfg) (hne : c0.incoming ≠ [] ∨ c0.outgoing ≠ []
     · simp only [upd, hji, if_false] at hr ⊢
       have hne' : (s.nodes j).term ≠ (s.nodes i).term := by
         intro he
-        exact hji (leader_unique c0 hne (vsys s) hV i j (by simpa [vsys, vproj] using hrole)
+        exact hji (leader_unique (vsys s) hV i j (by simpa [vsys, vproj] using hrole)
           (by simpa [vsys, vproj] using hr) (by simpa [vsys, vproj] using he))
       simp only [updT, hne', if_false]
       exact h.ll j hr
@@ -255,8 +260,8 @@ theorem keep_pendt (s : PSys) (h : InvL s) (i : Nat) :
     ∀ im ∈ (s.nodes i).pending, ∀ e ∈ im.log, e.term ≤ im.term := (h.tle i).2.2
 
 set_option maxHeartbeats 1600000 in
-theorem invL_step (c0 : Cfg) (hne : c0.incoming ≠ [] ∨ c0.outgoing ≠ []) (s s' : PSys) (e : Event)
-    (hc : e.cfgOk c0) (hV : InvV c0 (vsys s)) (hI : InvL s) (h : applyEvent s e = .ok s') : InvL s' := by
+theorem invL_step (s s' : PSys) (e : Event)
+    (hV : InvV (vsys s)) (hI : InvL s) (h : applyEvent s e = .ok s') : InvL s' := by
   have keepA : ∀ a ∈ s.acks, a ∈ s.acks ∨ PFL s.llog a.pre := fun a ha => Or.inl ha
   have keepS : ∀ m ∈ s.snaps, m ∈ s.snaps ∨ (PFL s.llog m.pre ∧ ∀ e ∈ m.pre, e.term ≤ m.term) := fun m hm => Or.inl hm
   have keepM : ∀ m ∈ s.apps, m ∈ s.apps ∨ MsgOk s m := fun m hm => Or.inl hm
@@ -456,13 +461,18 @@ theorem invL_step (c0 : Cfg) (hne : c0.incoming ≠ [] ∨ c0.outgoing ≠ []) (
     simp only [applyEvent, ok] at h
     split at h
     · rename_i hg; cases h
-      simp only [Event.cfgOk] at hc
-      subst hc
       have hall : ∀ x ∈ q, (⟨(s.nodes i).term, x, i⟩ : Grant) ∈ s.grants := by
         have := hg.2.2.2.2.2.1
         simp only [List.all_eq_true, List.contains_iff_mem] at this
         exact this
-      exact invL_win cfg hne s hV hI i q hg.2.1 hg.2.2.2.1 hall
+      have hadj : ∀ p ∈ s.ecfgs, p.1 = (s.nodes i).term → adjOk cfg p.2 = true := by
+        have := hg.2.2.2.2.2.2.2.2.1
+        simp only [List.all_eq_true, Bool.or_eq_true, decide_eq_true_eq] at this
+        intro p hp hpt
+        rcases this p hp with h1 | h1
+        · exact absurd hpt h1
+        · exact h1
+      exact invL_win s hV hI i cfg hg.2.1 (win_fresh_elected s hV hI i cfg q hg.2.1 hg.2.2.2.1 hall hadj)
     · cases h
   | stepDown i =>
     simp only [applyEvent, ok] at h
@@ -476,7 +486,7 @@ theorem invL_step (c0 : Cfg) (hne : c0.incoming ≠ [] ∨ c0.outgoing ≠ []) (
     simp only [applyEvent, ok] at h
     split at h
     · rename_i hg; cases h
-      exact invL_lappend c0 hne s hV hI i e hg.2.1 hg.2.2
+      exact invL_lappend s hV hI i e hg.2.1 hg.2.2
     · cases h
   | sendApp i m =>
     simp only [applyEvent, ok] at h
@@ -680,10 +690,12 @@ theorem invL_step (c0 : Cfg) (hne : c0.incoming ≠ [] ∨ c0.outgoing ≠ []) (
     · cases h
 
 /-- **InvL holds in every reachable state** of P under a fixed configuration with a voter -/
-theorem invL_reach (c0 : Cfg) (hne : c0.incoming ≠ [] ∨ c0.outgoing ≠ []) (s : PSys) (h : ReachC c0 s) :
-    InvL s := by
+theorem invL_reachR (s : PSys) (h : Reach s) : InvL s := by
   induction h with
   | init => exact invL_init
-  | step e hr hc hs ih => exact invL_step c0 hne _ _ e hc (invV_reach c0 _ hr) ih hs
+  | step e hr hs ih => exact invL_step _ _ e (invV_reachR _ hr) ih hs
+
+theorem invL_reach (c0 : Cfg) (_hne : c0.incoming ≠ [] ∨ c0.outgoing ≠ []) (s : PSys) (h : ReachC c0 s) :
+    InvL s := invL_reachR s (reach_of_reachC h)
 
 end RaftModel.P
